@@ -134,6 +134,16 @@ def enumerate_cases(tier: str):
                 for event in (["save"], ["reload"], ["session"]):
                     ops = [["send", [11, 1, 1, 0, 3, value], None], ["send", [1, 2, 1, 0, 3, value], None], event, ["rx", wake], ["rx", wake]]
                     yield {"version": version, "registry": registry, "ops": ops, "listen_mode": mode}
+    # the gateway's version (and with it the protocol module) changes between the send and the wake
+    for first in (None, "1.5", "2.0", "2.1", "2.2"):
+        for then in ("2.0.0", "2.1.1", "2.2.0"):
+            if first is not None and then.startswith(first):
+                continue
+            wake = "11;255;3;0;32;500\n" if then.startswith("2.2") else "11;255;3;0;22;7\n"
+            for form in ("0;255;3;0;2;{}\n", "0;255;0;0;18;{}\n"):
+                for mode in ("fresh", "persistent"):
+                    ops = [["send", [11, 1, 1, 0, 3, "1"], None], ["send", [11, 2, 1, 1, 3, "0"], None], ["rx", form.format(then)], ["rx", wake], ["rx", wake]]
+                    yield {"version": first, "registry": registry, "ops": ops, "listen_mode": mode}
     # many parked commands for one node: all of them are owed at its next wake, however many there are
     for version in ("2.0", "2.2"):
         wake = "1;255;3;0;32;500\n" if version == "2.2" else "1;255;3;0;22;7\n"
